@@ -21,7 +21,7 @@ if [ "${SKIP_SUITE:-0}" != 1 ]; then
 else suite="suite=skipped"; fi
 det=""; miss=""
 for id in $checks; do
-  VERIF_REPO="$S/repo" VERIF_OUT="$S/out" timeout 1800 /verif/check.sh $id ${TIER:-quick} > "$S/$id.log" 2>&1
+  VERIF_REPO="$S/repo" VERIF_OUT="$S/out" timeout 1800 ${VERIF_SRC:-/verif}/check.sh $id ${TIER:-quick} > "$S/$id.log" 2>&1
   rc=$?
   if grep -aq "^VIOLATION property=$id" "$S/$id.log"; then det="$det $id"; elif [ $rc -ne 0 ]; then miss="$miss $id(rc=$rc)"; else miss="$miss $id"; fi
 done
